@@ -93,6 +93,18 @@ class Deps:
                 for op in n.ops:
                     out.add(f'cmp:{type(op).__name__}')
 
+    def reach(self, expr) -> list:
+        """expr and every expression bound (transitively) to a local it mentions - the ASTs behind sources()."""
+        out, seen, todo = [], set(), [expr]
+        while todo:
+            e = todo.pop()
+            out.append(e)
+            for n in ast.walk(e):
+                if isinstance(n, ast.Name) and n.id in self.binds and n.id not in seen:
+                    seen.add(n.id)
+                    todo.extend(self.binds[n.id])
+        return out
+
     def depends(self, expr, *wanted) -> bool:
         s = self.sources(expr)
         return all(w in s for w in wanted)
